@@ -73,6 +73,12 @@ pub fn run_case(a: &Args, idx: u64, acc: &mut Acc) {
             addrs.push(format!("/.whiteout{}", par));
         }
     }
+    // stray entries a caller could drop into the bookkeeping: names shorter than the marker suffix, multi-byte names
+    addrs.push("/.whiteout/x".into());
+    addrs.push("/.whiteout/\u{e9}".into());
+    if removed.iter().any(|r| r.starts_with("/d/")) {
+        addrs.push("/.whiteout/d/y".into());
+    }
     addrs.sort();
     addrs.dedup();
     let mut probe: Vec<String> = tree.keys().cloned().collect();
@@ -81,6 +87,11 @@ pub fn run_case(a: &Args, idx: u64, acc: &mut Acc) {
     probe.push("/moved_dir".into());
     let check_hidden = |acc: &mut Acc, trace: &Vec<String>, after: &str, order: u64| -> bool {
         let snap = snapshot(&b.root, &probe, 4096);
+        if let Some((m, p, e)) = snap.panics().first() {
+            let pi = e.panic.clone().unwrap();
+            acc.violate(Violation { property: "C13", signature: format!("panic|observer-after-bookkeeping-call:{}|{}|{}", m, pi.head(), pi.file()), summary: format!("{}({:?}) panicked after {}: {} at {}", m, p, after, pi.message, pi.location), detail: detail(trace), order });
+            return false;
+        }
         let got = snap.tree();
         // visibility is reported once per address kind and does not end the case: the calls below matter more
         for ad in &addrs {
